@@ -14,8 +14,8 @@ from envlib import Adapter, Config
 class A(Adapter):
     name = "tsp"
     lean = "tsp"
-    serves = {"C04", "C05", "C06", "C08", "C09", "C10", "C11", "C12"}
-    ops = ("state", "step", "judge", "instance")
+    serves = {"C01", "C04", "C05", "C06", "C08", "C09", "C10", "C11", "C12"}
+    ops = ("state", "step", "judge", "instance", "bounds")
     terminate_on_invalid = True
     max_steps = 60
     state_fields = ["coordinates", "position", "visited_mask", "trajectory", "num_visited"]
